@@ -469,13 +469,16 @@ func (ex *Exec) valEq(st *State, a, b Val, t types.Type) *Term {
 		}
 		return Eq(ex.ifaceTerm(st, x, sort), ex.ifaceTerm(st, y, sort))
 	case *SliceV:
-		// only comparison with nil is legal
+		// in Go only comparison with nil is legal; contracts also compare two slice values (same backing store and length)
 		if y, ok := b.(*SliceV); ok {
-			o := x
-			if x.Back.S == "0" && x.Len.S == BVInt(0, 64, true).S {
-				o = y
+			zero := BVInt(0, 64, true).S
+			if x.Back.S == "0" && x.Len.S == zero {
+				return Eq(y.Back, IntConst(0))
 			}
-			return Eq(o.Back, IntConst(0))
+			if y.Back.S == "0" && y.Len.S == zero {
+				return Eq(x.Back, IntConst(0))
+			}
+			return And(Eq(x.Back, y.Back), Eq(x.Len, y.Len))
 		}
 	case *MapV:
 		if y, ok := b.(*MapV); ok {
